@@ -83,7 +83,7 @@ func genC13(rt *rapid.T) c13Params {
 // c13Run executes the run and returns "" or (sig, message).
 func c13Run(c *chain.Chain, p c13Params, rec *ev.Rec) (sig, msg string, reachedLow bool) {
 	f := c.Fork(p.StartHeight-1, chain.GenesisTime)
-	mp := minttypes.NewParams(p.Denom, p.Dev, p.TokensPerBlock, p.Staker, p.MintDecrease, c13StipendAddr(p.Stipend), p.Provider)
+	mp := minttypes.Params{MintDenom: p.Denom, DevGrantsRatio: p.Dev, TokensPerBlock: p.TokensPerBlock, StakerRatio: p.Staker, MintDecrease: p.MintDecrease, StorageStipendAddress: c13StipendAddr(p.Stipend), StorageProviderRatio: p.Provider}
 	if err := mp.Validate(); err != nil {
 		return "C13/harness", "generated params rejected: " + err.Error(), false
 	}
